@@ -117,7 +117,7 @@ _seq("C25", "expression trees mean what they say",
 _seq("C26", "filters meet the configured rate",
      "grid of entry counts x rates x producers; every stored filter must equal, bit for bit, the textbook-sized filter over the reference's entries, and its measured rate over 200000 fixed absent entries must stay within 3x the configured rate (+5 sigma)",
      "the statistical clause is decided by an exact sizing/bit equality plus a fixed-universe measurement, not by a statistical test over random data; filters below 50 entries are a catalogued finding",
-     "bounded grid enumeration with an exact construction oracle", budget={"quick": 150, "thorough": 1500})
+     "bounded grid enumeration with an exact construction oracle", budget={"quick": 300, "thorough": 1500})
 
 _seq("C06", "acknowledgements are truthful",
      "a 4-batch history is re-run with a failure at every store call position (quick: singly; thorough: every ordered pair) over 4 store variants; after two further fault-free flushes and a Merge the rows visible on this and on a fresh engine must equal the rows of nil-acknowledged batches",
